@@ -5,5 +5,125 @@
 // correspondence harness can drive the real code; it replaces no source file.
 package tchannel
 
+import (
+	"bytes"
+	"io"
+	"time"
+
+	"github.com/uber/tchannel-go/typed"
+)
+
 // VerifCanRetry exposes RetryOn.CanRetry (already public) for symmetry.
 func VerifCanRetry(r RetryOn, err error) bool { return r.CanRetry(err) }
+
+// ---- message / frame codecs (C06) ----
+
+// VerifMsg carries the fields of any protocol message.
+type VerifMsg struct {
+	Kind      int // 0 initReq 1 initRes 2 callReq 3 callRes 4 error 5 cancel 6 pingReq 7 pingRes 8 callReqContinue 9 callResContinue
+	ID        uint32
+	Version   uint16
+	Params    map[string]string
+	TTL       time.Duration
+	Span      [4]uint64 // span, parent, trace, flags
+	Service   string
+	Headers   map[string]string
+	Code      byte
+	Message   string
+	CancelTTL uint32
+}
+
+func (v *VerifMsg) span() Span {
+	return Span{spanID: v.Span[0], parentID: v.Span[1], traceID: v.Span[2], flags: byte(v.Span[3])}
+}
+
+func (v *VerifMsg) message() message {
+	th := transportHeaders{}
+	for k, val := range v.Headers {
+		th[TransportHeaderName(k)] = val
+	}
+	switch v.Kind {
+	case 0:
+		return &initReq{initMessage{id: v.ID, Version: v.Version, initParams: initParams(v.Params)}}
+	case 1:
+		return &initRes{initMessage{id: v.ID, Version: v.Version, initParams: initParams(v.Params)}}
+	case 2:
+		return &callReq{id: v.ID, TimeToLive: v.TTL, Tracing: v.span(), Headers: th, Service: v.Service}
+	case 3:
+		return &callRes{id: v.ID, ResponseCode: ResponseCode(v.Code), Tracing: v.span(), Headers: th}
+	case 4:
+		return &errorMessage{id: v.ID, errCode: SystemErrCode(v.Code), tracing: v.span(), message: v.Message}
+	case 5:
+		return &cancelMessage{id: v.ID, ttl: v.CancelTTL, tracing: v.span(), message: v.Message}
+	case 6:
+		return &pingReq{id: v.ID}
+	case 7:
+		return &pingRes{id: v.ID}
+	case 8:
+		return &callReqContinue{id: v.ID}
+	default:
+		return &callResContinue{id: v.ID}
+	}
+}
+
+// VerifEncodeFrame runs Frame.write(msg) on a frame with the given payload capacity and,
+// on success, Frame.WriteOut.
+func VerifEncodeFrame(v *VerifMsg, payloadCap int) ([]byte, error) {
+	f := NewFrame(payloadCap)
+	if err := f.write(v.message()); err != nil {
+		return nil, err
+	}
+	var buf bytes.Buffer
+	if err := f.WriteOut(&buf); err != nil {
+		return nil, err
+	}
+	return buf.Bytes(), nil
+}
+
+// VerifDecodePayload runs message.read on the payload; returns the fields and the number
+// of unread bytes.
+func VerifDecodePayload(kind int, payload []byte) (*VerifMsg, int, error) {
+	v := &VerifMsg{Kind: kind}
+	msg := v.message()
+	rbuf := typed.NewReadBuffer(payload)
+	if err := msg.read(rbuf); err != nil {
+		return nil, 0, err
+	}
+	getSpan := func(s Span) [4]uint64 { return [4]uint64{s.spanID, s.parentID, s.traceID, uint64(s.flags)} }
+	getTH := func(th transportHeaders) map[string]string {
+		m := map[string]string{}
+		for k, val := range th {
+			m[string(k)] = val
+		}
+		return m
+	}
+	switch m := msg.(type) {
+	case *initReq:
+		v.Version, v.Params = m.Version, m.initParams
+	case *initRes:
+		v.Version, v.Params = m.Version, m.initParams
+	case *callReq:
+		v.TTL, v.Span, v.Service, v.Headers = m.TimeToLive, getSpan(m.Tracing), m.Service, getTH(m.Headers)
+	case *callRes:
+		v.Code, v.Span, v.Headers = byte(m.ResponseCode), getSpan(m.Tracing), getTH(m.Headers)
+	case *errorMessage:
+		v.Code, v.Span, v.Message = byte(m.errCode), getSpan(m.tracing), m.message
+	case *cancelMessage:
+		v.CancelTTL, v.Span, v.Message = m.ttl, getSpan(m.tracing), m.message
+	}
+	return v, rbuf.BytesRemaining(), nil
+}
+
+// VerifReadFrame runs Frame.ReadIn on a pooled-size frame.
+// code: 0 ok, 1 invalid size, 2 short read / EOF.
+func VerifReadFrame(stream []byte) (code int, size uint16, mt byte, res1 byte, id uint32, payload []byte, rest int) {
+	f := NewFrame(MaxFramePayloadSize)
+	r := bytes.NewReader(stream)
+	if err := f.ReadIn(r); err != nil {
+		if err == io.EOF || err == io.ErrUnexpectedEOF {
+			return 2, 0, 0, 0, 0, nil, 0
+		}
+		return 1, 0, 0, 0, 0, nil, 0
+	}
+	return 0, f.Header.size, byte(f.Header.messageType), f.Header.reserved1, f.Header.ID, append([]byte(nil), f.SizedPayload()...), r.Len()
+}
